@@ -11,10 +11,23 @@ suspended in `drain()` (`drainAwait w e r`):
   (this is where `rw` pointing to an existing transport is needed: `doWrite` on a missing transport would be
   silent);
 * every `qdrop` in the trace states a true reason (`DropOk`);
-* every `accept sid` in the trace is still queued, or has a write attempt, or has a `qdrop` (`Fated`).
+* every `accept sid` in the trace is still queued, or has a write attempt, or has a `qdrop`, or the session in which
+  it was accepted has ended and a new one has begun (`reopenedSince`) (`Fated`).
 
 It is preserved by every step of the model whose `apiSend` carries an identity that was not accepted before
 (`step_tinv`), hence holds in every `ReachableWF` state (`tinv_reachableWF`).
+
+**Change with /repo 3897b77** ("do not send messages of an earlier session after the socket is opened again"):
+`open_socket()` on a socket that is not open now starts with `self._message_queue.clear()`.  Entries of the earlier
+session that were still queued (waiting for a connection when `close()` ran, or put back by a sender's retry path after
+`close()` had returned) disappear there, and the code logs nothing about them.  The accounting statement "still queued, or
+attempted, or dropped with a reason" is therefore FALSE for such a message (`reopen_discards_silently` is the history), and
+the fourth alternative `reopenedSince tr sid` was added: in the trace, the `accept` of `sid` is followed by an `apiClose`
+that is followed by an `apiOpen`.  That is exact, not an over-approximation: `open_socket()` on a socket that is already
+open (no `apiClose` in between) clears nothing and does not make the alternative true.  For messages of the current session
+(`reopenedSince tr sid = false`, in particular when the trace has no `apiClose`) the old three-way statement holds verbatim
+(`C01_accounted_current_session`).  The Spec monitor `noSilentLoss` never judged histories with a `close()` (`hasClose`),
+so the monitor theorems are unchanged.
 -/
 namespace PyAirtouch.Lemmas.SockLoss
 open PyAirtouch.Model.Sock PyAirtouch.Spec.Trace PyAirtouch.Lemmas.Sock PyAirtouch.Lemmas.SockConn
@@ -62,6 +75,102 @@ theorem dropped_of_mem {tr : List Ev} {s t : Nat} {why : DropWhy} (h : Ev.qdrop 
   simp only [dropped, List.any_eq_true]
   exact ⟨_, h, by simp⟩
 
+/-! ### sessions: what the trace says about `close()` / `open_socket()` after an acceptance -/
+
+/-- where message `sid` stands with respect to the sessions of the socket: not accepted yet; accepted and the session of
+    its acceptance still running; that session closed (`apiClose` after the `accept`); the socket opened again after that
+    (`apiOpen` after that `apiClose`) -/
+inductive Sess | notYet | current | closed | reopened
+deriving DecidableEq, Repr
+
+def sessStep (sid : Nat) : Sess → Ev → Sess
+  | .notYet, .accept s _ _ _ _ => if s = sid then .current else .notYet
+  | .current, .apiClose _ => .closed
+  | .closed, .apiOpen _ => .reopened
+  | st, _ => st
+
+def sessionOf (tr : List Ev) (sid : Nat) : Sess := tr.foldl (sessStep sid) .notYet
+
+/-- after the acceptance of `sid` the socket was closed and then opened again: the trace has the shape
+    `… accept sid … apiClose … apiOpen …`.  Since /repo 3897b77 that `open_socket()` started with an empty queue: whatever the
+    earlier session had left queued was discarded there, without a log record. -/
+def reopenedSince (tr : List Ev) (sid : Nat) : Bool := sessionOf tr sid == .reopened
+
+theorem sessionOf_append (tr evs : List Ev) (sid : Nat) :
+    sessionOf (tr ++ evs) sid = evs.foldl (sessStep sid) (sessionOf tr sid) := by
+  simp [sessionOf, List.foldl_append]
+
+theorem sessStep_reopened (sid : Nat) (ev : Ev) : sessStep sid .reopened ev = .reopened := by
+  cases ev <;> rfl
+
+theorem sessFold_reopened (sid : Nat) (evs : List Ev) : evs.foldl (sessStep sid) .reopened = .reopened := by
+  induction evs with
+  | nil => rfl
+  | cons ev evs ih => rw [List.foldl_cons, sessStep_reopened]; exact ih
+
+theorem reopenedSince_mono {tr : List Ev} {sid : Nat} (evs : List Ev) (h : reopenedSince tr sid = true) :
+    reopenedSince (tr ++ evs) sid = true := by
+  simp only [reopenedSince, beq_iff_eq] at h ⊢
+  rw [sessionOf_append, h, sessFold_reopened]
+
+/-- only an `accept` makes a message "accepted in the running session" -/
+theorem sessStep_ne_current {sid : Nat} {st : Sess} {ev : Ev} (hst : st ≠ .current)
+    (hev : SockHeal.isAcc ev = false) : sessStep sid st ev ≠ .current := by
+  cases st <;> cases ev <;> simp_all [sessStep, SockHeal.isAcc]
+
+theorem sessFold_ne_current {sid : Nat} (evs : List Ev) (hev : ∀ ev ∈ evs, SockHeal.isAcc ev = false) :
+    ∀ st : Sess, st ≠ .current → evs.foldl (sessStep sid) st ≠ .current := by
+  induction evs with
+  | nil => intro st h; exact h
+  | cons ev evs ih =>
+    intro st h
+    rw [List.foldl_cons]
+    exact ih (fun e he => hev e (List.mem_cons_of_mem _ he)) _ (sessStep_ne_current h (hev ev (by simp)))
+
+theorem sessStep_close_ne_current (sid : Nat) (st : Sess) (t : Nat) : sessStep sid st (.apiClose t) ≠ .current := by
+  cases st <;> simp [sessStep]
+
+theorem sessStep_ne_notYet {sid : Nat} {st : Sess} (ev : Ev) (hst : st ≠ .notYet) : sessStep sid st ev ≠ .notYet := by
+  cases st <;> cases ev <;> simp_all [sessStep]
+
+theorem sessFold_ne_notYet {sid : Nat} (evs : List Ev) :
+    ∀ st : Sess, st ≠ .notYet → evs.foldl (sessStep sid) st ≠ .notYet := by
+  induction evs with
+  | nil => intro st h; exact h
+  | cons ev evs ih => intro st h; rw [List.foldl_cons]; exact ih _ (sessStep_ne_notYet ev h)
+
+/-- a message whose `accept` is in the trace has been accepted -/
+theorem sessionOf_of_mem {tr : List Ev} {sid t e r : Nat} {ok : Bool} (h : Ev.accept sid t e r ok ∈ tr) :
+    sessionOf tr sid ≠ .notYet := by
+  obtain ⟨pre, post, rfl⟩ := List.append_of_mem h
+  rw [sessionOf_append, List.foldl_cons]
+  refine sessFold_ne_notYet post _ ?_
+  cases hs : sessionOf pre sid <;> simp [sessStep]
+
+/-- an `apiOpen` after the session of the acceptance has been closed -/
+theorem reopenedSince_open {tr : List Ev} {sid : Nat} (t : Nat) (h1 : sessionOf tr sid ≠ .notYet)
+    (h2 : sessionOf tr sid ≠ .current) : reopenedSince (tr ++ [.apiOpen t]) sid = true := by
+  simp only [reopenedSince, beq_iff_eq, sessionOf_append, List.foldl_cons, List.foldl_nil]
+  cases hs : sessionOf tr sid <;> simp_all [sessStep]
+
+/-- a trace without `close()` has no ended session -/
+theorem reopenedSince_of_noClose {tr : List Ev} (h : hasClose tr = false) (sid : Nat) : reopenedSince tr sid = false := by
+  have key : ∀ (evs : List Ev) (st : Sess), (st = .notYet ∨ st = .current) →
+      (evs.any fun | .apiClose _ => true | _ => false) = false →
+      (evs.foldl (sessStep sid) st = .notYet ∨ evs.foldl (sessStep sid) st = .current) := by
+    intro evs
+    induction evs with
+    | nil => intro st h _; exact h
+    | cons ev evs ih =>
+      intro st hst hc
+      simp only [List.any_cons, Bool.or_eq_false_iff] at hc
+      rw [List.foldl_cons]
+      refine ih _ ?_ hc.2
+      rcases hst with rfl | rfl <;> cases ev <;> simp_all [sessStep] <;> omega
+  have := key tr .notYet (.inl rfl) h
+  simp only [reopenedSince, beq_eq_false_iff_ne, sessionOf]
+  rcases this with h' | h' <;> rw [h'] <;> simp
+
 /-! ### the invariant -/
 
 /-- the stated reason of a drop is true -/
@@ -79,9 +188,10 @@ def DropOk (tr : List Ev) : Ev → Prop
 def Acc (tr : List Ev) (x : Entry) : Prop :=
   ∃ t0 r0, acceptedAt tr x.sid = some (t0, x.expiry, r0, x.encOk)
 
-/-- message `s` is still queued, or the trace says what happened to it -/
+/-- message `s` is still queued, or the trace says what happened to it: a write attempt, a drop, or - since /repo
+    3897b77 - the socket was closed and opened again after its acceptance (the re-open discards what is queued) -/
 def Fated (tr : List Ev) (q : List Entry) (s : Nat) : Prop :=
-  (∃ x ∈ q, x.sid = s) ∨ 1 ≤ writeAttempts tr s ∨ dropped tr s = true
+  (∃ x ∈ q, x.sid = s) ∨ 1 ≤ writeAttempts tr s ∨ dropped tr s = true ∨ reopenedSince tr s = true
 
 structure TInv (tr : List Ev) (q fl : List Entry) : Prop where
   queued : ∀ x ∈ q, Acc tr x ∧ (x.requeued = true → 1 ≤ writeAttempts tr x.sid)
@@ -111,10 +221,11 @@ theorem DropOk.plain (tr : List Ev) {ev : Ev} (h : Plain ev = true) : DropOk tr 
 
 theorem Fated.mono {tr : List Ev} {q q' : List Entry} {s : Nat} (evs : List Ev) (hq : ∀ x ∈ q, x ∈ q')
     (h : Fated tr q s) : Fated (tr ++ evs) q' s := by
-  rcases h with ⟨x, hx, hs⟩ | h | h
+  rcases h with ⟨x, hx, hs⟩ | h | h | h
   · exact .inl ⟨x, hq x hx, hs⟩
   · exact .inr (.inl (Nat.le_trans h (writeAttempts_le _ _ _)))
-  · exact .inr (.inr (dropped_mono _ h))
+  · exact .inr (.inr (.inl (dropped_mono _ h)))
+  · exact .inr (.inr (.inr (reopenedSince_mono _ h)))
 
 /-- the trace grows by events that are not acceptances and whose drops (if any) are justified -/
 theorem TInv.ext {tr : List Ev} {q fl : List Entry} (h : TInv tr q fl) (evs : List Ev)
@@ -151,9 +262,19 @@ theorem TInv.shrinkQ {tr : List Ev} {q fl : List Entry} (h : TInv tr q fl) (q' :
   refine ⟨fun x hx => h.queued x (hsub x hx), h.flying, h.drops, ?_, h.noHeal⟩
   intro s t e r ok hmem
   rcases h.acct s t e r ok hmem with ⟨x, hx, hs⟩ | h' | h'
-  · subst hs; exact hk x hx
+  · subst hs
+    rcases hk x hx with h1 | h1 | h1
+    · exact .inl h1
+    · exact .inr (.inl h1)
+    · exact .inr (.inr (.inl h1))
   · exact .inr (.inl h')
   · exact .inr (.inr h')
+
+/-- `open_socket()` on a closed socket: the queue is emptied; every message accepted so far belongs to an earlier
+    session -/
+theorem TInv.clear {tr : List Ev} {q fl : List Entry} (h : TInv tr q fl)
+    (hs : ∀ s t e r ok, Ev.accept s t e r ok ∈ tr → reopenedSince tr s = true) : TInv tr [] fl :=
+  ⟨fun x hx => (by cases hx), h.flying, h.drops, fun s t e r ok hmem => .inr (.inr (.inr (hs s t e r ok hmem))), h.noHeal⟩
 
 theorem TInv.toFl {tr : List Ev} {q fl : List Entry} (h : TInv tr q fl) (x : Entry) (hx : x ∈ q)
     (hw : 1 ≤ writeAttempts tr x.sid) : TInv tr q (x :: fl) := by
@@ -411,8 +532,93 @@ theorem execCase_tinv {s : Sys} {t : Nat} {k0 : Task} {pc : Pc} {c0 : Core} {kon
     TInv c0.trace c0.queue (flOf s.tasks) := by
   cases hc <;> first | exact h | exact requeue_tinv _ _ _ (mem_flOf hk hpc) h
 
+/-! ### `is_open` and the sessions recorded in the trace -/
+
+/-- while the socket is not open no message is "accepted in the running session": every `accept` of the trace is
+    followed by an `apiClose` -/
+def OInv (c : Core) : Prop := c.isOpen = false → ∀ sid, sessionOf c.trace sid ≠ .current
+
+theorem OInv.ext {c c' : Core} (h : OInv c) (ho : c'.isOpen = false → c.isOpen = false) (evs : List Ev)
+    (ht : c'.trace = c.trace ++ evs) (hna : ∀ ev ∈ evs, SockHeal.isAcc ev = false) : OInv c' := by
+  intro hc sid
+  rw [ht, sessionOf_append]
+  exact sessFold_ne_current evs hna _ (h (ho hc) sid)
+
+theorem OInv.of_open {c : Core} (h : c.isOpen = true) : OInv c := fun hc => by rw [h] at hc; cases hc
+
+/-- after the `apiClose` event nothing is "accepted in the running session", whatever else (no `accept`) follows -/
+theorem OInv.closed {c' : Core} (tr : List Ev) (t : Nat) (evs : List Ev) (ht : c'.trace = tr ++ [.apiClose t] ++ evs)
+    (hna : ∀ ev ∈ evs, SockHeal.isAcc ev = false) : OInv c' := by
+  intro _ sid
+  rw [ht, sessionOf_append, sessionOf_append]
+  exact sessFold_ne_current evs hna _ (sessStep_close_ne_current sid _ t)
+
+theorem step_oinv {s s' : Sys} {l : Label} (h : OInv s.core) (hst : step s l = some s') : OInv s'.core := by
+  have same : (∀ sid r life ok, l ≠ .apiSend sid r life ok) → (s'.core.isOpen = false → s.core.isOpen = false) →
+      OInv s'.core := by
+    intro hl ho
+    obtain ⟨evs, ht, hna⟩ := SockHeal.step_ext_noacc hst hl
+    exact h.ext ho evs ht hna
+  cases l with
+  | advance t =>
+    refine same (by intros; simp) ?_
+    simp only [step] at hst; split at hst <;> cases hst; exact id
+  | envLost cid =>
+    refine same (by intros; simp) ?_
+    simp only [step] at hst; split at hst <;> cases hst; exact id
+  | envLostRan cid =>
+    refine same (by intros; simp) ?_
+    simp only [step] at hst; split at hst <;> cases hst; exact id
+  | envPause cid b =>
+    refine same (by intros; simp) ?_
+    simp only [step] at hst; split at hst <;> cases hst; exact id
+  | envFailWrites cid b =>
+    refine same (by intros; simp) ?_
+    simp only [step] at hst; split at hst <;> cases hst; exact id
+  | apiReset =>
+    refine same (by intros; simp) ?_
+    simp only [step] at hst; cases hst
+    have := (exec_frame FUEL (s.core.emit (.apiReset s.core.now)) [] (.disconnect (.resetTail .done))).isOpen
+    intro hc; exact (this.symm.trans hc)
+  | run t a =>
+    refine same (by intros; simp) ?_
+    rw [(SockHeal.run_isOpen hst).1]; exact id
+  | apiOpen =>
+    simp only [step] at hst
+    split at hst
+    · rename_i ho; cases hst; exact OInv.of_open ho
+    · cases hst; exact OInv.of_open rfl
+  | apiClose =>
+    simp only [step] at hst
+    split at hst
+    · cases hst
+      exact OInv.closed s.core.trace s.core.now [.apiCloseDone s.core.now] rfl
+        (fun ev hev => by rw [List.mem_singleton.1 hev]; rfl)
+    · split at hst
+      · cases hst
+        exact OInv.closed s.core.trace s.core.now [] (by simp [spawnApi, Core.emit]) (fun ev hev => by cases hev)
+      · cases hst
+        obtain ⟨evs, ht, hna⟩ := SockHeal.exec_ext_noacc { s.core.emit (.apiClose s.core.now) with isOpen := false }
+          (.disconnect .closeTail)
+        exact OInv.closed s.core.trace s.core.now evs ht hna
+  | apiSend sid retries life encOk =>
+    simp only [step] at hst
+    split at hst
+    · cases hst
+      exact h.ext id [.reject sid s.core.now .notOpen] rfl (fun ev hev => by rw [List.mem_singleton.1 hev]; rfl)
+    · rename_i ho
+      have ho' : s.core.isOpen = true := by simpa using ho
+      split at hst
+      · cases hst; exact OInv.of_open ho'
+      · cases hst
+        refine OInv.of_open ?_
+        exact (exec_frame FUEL _ [] (.drain .done)).isOpen.trans ho'
+
+theorem oinv_reachable {s : Sys} (h : Reachable s) : OInv s.core :=
+  Reachable.induction (P := fun s => OInv s.core) (fun _ sid => by simp [init, sessionOf]) (fun _ _ _ _ hp hst => step_oinv hp hst) s h
+
 /-- one step of the model; a `send` must carry an identity that was not accepted before -/
-theorem step_tinv {s s' : Sys} {l : Label} (h : SInv s) (hrw : rwValid s.core)
+theorem step_tinv {s s' : Sys} {l : Label} (h : SInv s) (hrw : rwValid s.core) (hoi : OInv s.core)
     (hfresh : ∀ sid r life ok, l = .apiSend sid r life ok → acceptedAt s.core.trace sid = none)
     (hst : step s l = some s') : SInv s' := by
   cases l with
@@ -426,10 +632,21 @@ theorem step_tinv {s s' : Sys} {l : Label} (h : SInv s) (hrw : rwValid s.core)
   | apiOpen =>
     simp only [step] at hst
     have h0 : TInv (s.core.trace ++ [.apiOpen s.core.now]) s.core.queue (flOf s.tasks) := h.plain _ rfl
-    split at hst <;> cases hst
-    · exact spawnApi_tinv (by simp) h0
-    · refine spawnApi_tinv ?_ h0
-      intro p hp; simp only [List.mem_singleton] at hp; subst hp; rfl
+    split at hst
+    · cases hst; exact spawnApi_tinv (by simp) h0
+    · rename_i hc
+      have hclosed : s.core.isOpen = false := by simpa [Core.emit] using hc
+      cases hst
+      -- `self._message_queue.clear()`: every message accepted so far was accepted before the `apiClose` that made
+      -- `is_open` false (`OInv`); with this `apiOpen` its session has ended and a new one begun
+      refine spawnApi_tinv ?_ (h0.clear ?_)
+      · intro p hp; simp only [List.mem_singleton] at hp; subst hp; rfl
+      · intro sid t e r ok hmem
+        have hmem' : Ev.accept sid t e r ok ∈ s.core.trace := by
+          rcases List.mem_append.1 hmem with hm | hm
+          · exact hm
+          · cases List.mem_singleton.1 hm
+        exact reopenedSince_open _ (sessionOf_of_mem hmem') (hoi hclosed sid)
   | apiClose =>
     simp only [step] at hst
     have h0 : TInv (s.core.trace ++ [.apiClose s.core.now]) s.core.queue (flOf s.tasks) := h.plain _ rfl
@@ -507,7 +724,7 @@ theorem tinv_reachableWF {s : Sys} (h : ReachableWF s) : SInv s := by
   rw [sendSids_append] at hnd
   have hnd0 : (sendSids ls).Nodup := (List.nodup_append.1 hnd).1
   have hinv : AInv (abs (sendSids ls) s) := (run_abs ls s hrun).inv (fun _ => AInv.init) hnd0
-  refine step_tinv (hp hnd0) (hinv1_reachable ⟨ls, hrun⟩).rwv ?_ hst
+  refine step_tinv (hp hnd0) (hinv1_reachable ⟨ls, hrun⟩).rwv (oinv_reachable ⟨ls, hrun⟩) ?_ hst
   intro sid r life ok hl
   subst hl
   cases hx : acceptedAt s.core.trace sid with
@@ -536,11 +753,59 @@ theorem C01_drops_justified {s : Sys} (h : ReachableWF s) : dropsJustified s.cor
 
 /-- the strong form of the accounting invariant: an accepted message is still queued, or the trace contains a
     write attempt or a drop for it (an entry held in flight by a task suspended in `drain()` already has its
-    write attempt in the trace) -/
+    write attempt in the trace), **or the socket was closed and opened again after its acceptance**.
+
+    Statement changed with /repo 3897b77 (`open_socket()` on a closed socket clears the queue, logging nothing): the fourth
+    alternative `reopenedSince` is new; without it the statement is false (`reopen_discards_silently`).  For messages of
+    the current session the old statement is `C01_accounted_current_session`. -/
 theorem C01_accounted_strong {s : Sys} (h : ReachableWF s) {sid t e r : Nat} {ok : Bool}
     (hmem : Ev.accept sid t e r ok ∈ s.core.trace) :
-    (∃ x ∈ s.core.queue, x.sid = sid) ∨ 1 ≤ writeAttempts s.core.trace sid ∨ dropped s.core.trace sid = true :=
+    (∃ x ∈ s.core.queue, x.sid = sid) ∨ 1 ≤ writeAttempts s.core.trace sid ∨ dropped s.core.trace sid = true ∨
+      reopenedSince s.core.trace sid = true :=
   (tinv_reachableWF h).acct sid t e r ok hmem
+
+/-- the accounting statement as it was before /repo 3897b77, for the messages it is still true of: those accepted in the
+    session that is running, or in the last one if the socket has not been opened again
+    (`reopenedSince s.core.trace sid = false`) -/
+theorem C01_accounted_current_session {s : Sys} (h : ReachableWF s) {sid t e r : Nat} {ok : Bool}
+    (hmem : Ev.accept sid t e r ok ∈ s.core.trace) (hcur : reopenedSince s.core.trace sid = false) :
+    (∃ x ∈ s.core.queue, x.sid = sid) ∨ 1 ≤ writeAttempts s.core.trace sid ∨ dropped s.core.trace sid = true := by
+  rcases C01_accounted_strong h hmem with h1 | h1 | h1 | h1
+  · exact .inl h1
+  · exact .inr (.inl h1)
+  · exact .inr (.inr h1)
+  · rw [hcur] at h1; cases h1
+
+/-- … in particular in every history without `close()` -/
+theorem C01_accounted_no_close {s : Sys} (h : ReachableWF s) {sid t e r : Nat} {ok : Bool}
+    (hmem : Ev.accept sid t e r ok ∈ s.core.trace) (hnc : hasClose s.core.trace = false) :
+    (∃ x ∈ s.core.queue, x.sid = sid) ∨ 1 ≤ writeAttempts s.core.trace sid ∨ dropped s.core.trace sid = true :=
+  C01_accounted_current_session h hmem (reopenedSince_of_noClose hnc sid)
+
+/-- **The history in which the unrestricted statement fails since /repo 3897b77.**  `open_socket()`; `send(1)` is accepted
+    while the link is down (queued, nothing written); `close()` runs to completion - the entry stays queued; `open_socket()`
+    again: the queue is empty, the trace has no write attempt and no drop for message 1, no task holds it, and the only
+    events after its `accept` are `apiClose`, `notify false`, `apiCloseDone`, `apiOpen`.  Nothing in the trace says the
+    message was discarded - except that it was accepted before a `close()` / `open_socket()` pair (`reopenedSince`). -/
+theorem reopen_discards_silently : ∃ s, ReachableWF s ∧ Ev.accept 1 0 240 2 true ∈ s.core.trace ∧
+    s.core.queue = [] ∧ writeAttempts s.core.trace 1 = 0 ∧ dropped s.core.trace 1 = false ∧
+    (∀ k ∈ s.tasks, k.pc = .finished ∨ k.pc = .connStart) ∧
+    s.core.trace = [.apiOpen 0, .accept 1 0 240 2 true, .apiClose 0, .notify false 0, .apiCloseDone 0, .apiOpen 0] ∧
+    reopenedSince s.core.trace 1 = true ∧
+    ¬ ((∃ x ∈ s.core.queue, x.sid = 1) ∨ 1 ≤ writeAttempts s.core.trace 1 ∨ dropped s.core.trace 1 = true) :=
+  ⟨_, ⟨[.apiOpen, .apiSend 1 2 240 true, .apiClose, .run 3 .go, .run 3 .go, .apiOpen], by decide, rfl⟩,
+    by decide, by decide, by decide, by decide, by decide, by decide, by decide, by decide⟩
+
+/-- the state before that re-open: the socket is closed (`close()` has returned) and message 1 is still queued -/
+example : ∃ s, ReachableWF s ∧ s.core.isOpen = false ∧ s.core.queue.map (·.sid) = [1] ∧
+    (∃ x ∈ s.core.queue, x.sid = 1) :=
+  ⟨_, ⟨[.apiOpen, .apiSend 1 2 240 true, .apiClose, .run 3 .go, .run 3 .go], by decide, rfl⟩, by decide, by decide,
+    by decide⟩
+
+/-- `open_socket()` on a socket that is already open discards nothing and is not counted as a re-open -/
+example : ∃ s, ReachableWF s ∧ s.core.queue.map (·.sid) = [1] ∧ reopenedSince s.core.trace 1 = false ∧
+    s.core.trace = [.apiOpen 0, .accept 1 0 240 2 true, .apiOpen 0] :=
+  ⟨_, ⟨[.apiOpen, .apiSend 1 2 240 true, .apiOpen], by decide, rfl⟩, by decide, by decide, by decide⟩
 
 /-- an entry held in flight by a task suspended in `drain()` has a write attempt in the trace -/
 theorem C01_in_flight_attempted {s : Sys} (h : ReachableWF s) {k : Task} (hk : k ∈ s.tasks) {w : Nat} {x : Entry}
@@ -550,12 +815,13 @@ theorem C01_in_flight_attempted {s : Sys} (h : ReachableWF s) {k : Task} (hk : k
   exact ⟨k, hk, by rw [hpc]; simp [hold]⟩
 
 /-- the accounting invariant: an accepted message is still queued, or in flight in some task, or the trace
-    contains a write attempt or a drop for it -/
+    contains a write attempt or a drop for it, or (new with /repo 3897b77, see `C01_accounted_strong`) the socket was
+    closed and opened again after its acceptance -/
 theorem C01_accounted {s : Sys} (h : ReachableWF s) {sid t e r : Nat} {ok : Bool}
     (hmem : Ev.accept sid t e r ok ∈ s.core.trace) :
     (∃ x ∈ s.core.queue, x.sid = sid) ∨
     (∃ k ∈ s.tasks, ∃ w x r', k.pc = .drainAwait w x r' ∧ x.sid = sid) ∨
-    1 ≤ writeAttempts s.core.trace sid ∨ dropped s.core.trace sid = true := by
+    1 ≤ writeAttempts s.core.trace sid ∨ dropped s.core.trace sid = true ∨ reopenedSince s.core.trace sid = true := by
   rcases C01_accounted_strong h hmem with h1 | h1
   · exact .inl h1
   · exact .inr (.inr h1)
@@ -563,13 +829,14 @@ theorem C01_accounted {s : Sys} (h : ReachableWF s) {sid t e r : Nat} {ok : Bool
 /-- no task is suspended in `drain()` -/
 def noDrainAwait (s : Sys) : Prop := ∀ k ∈ s.tasks, ∀ w x r, k.pc ≠ .drainAwait w x r
 
-/-- quiescent states: with an empty queue every accepted message has a write attempt or a drop in the trace, and
-    every drop in the trace is justified.  (`noDrainAwait s` is not needed, see `C01_accounted_strong`; it is kept
-    in `C01_no_silent_loss_quiescent'` for the statement as asked.) -/
+/-- quiescent states: with an empty queue every accepted message has a write attempt or a drop in the trace - or was
+    accepted before the socket was closed and opened again (new with /repo 3897b77: the re-open is one of the ways a queue
+    becomes empty) - and every drop in the trace is justified.  (`noDrainAwait s` is not needed, see `C01_accounted_strong`;
+    it is kept in `C01_no_silent_loss_quiescent'` for the statement as asked.) -/
 theorem C01_no_silent_loss_quiescent {s : Sys} (h : ReachableWF s) (hq : s.core.queue = []) :
     dropsJustified s.core.trace = true ∧
     ∀ sid t e r ok, Ev.accept sid t e r ok ∈ s.core.trace →
-      1 ≤ writeAttempts s.core.trace sid ∨ dropped s.core.trace sid = true := by
+      1 ≤ writeAttempts s.core.trace sid ∨ dropped s.core.trace sid = true ∨ reopenedSince s.core.trace sid = true := by
   refine ⟨C01_drops_justified h, ?_⟩
   intro sid t e r ok hmem
   rcases C01_accounted_strong h hmem with ⟨x, hx, _⟩ | h1
@@ -579,8 +846,22 @@ theorem C01_no_silent_loss_quiescent {s : Sys} (h : ReachableWF s) (hq : s.core.
 theorem C01_no_silent_loss_quiescent' {s : Sys} (h : ReachableWF s) (hq : s.core.queue = []) (_ : noDrainAwait s) :
     dropsJustified s.core.trace = true ∧
     ∀ sid t e r ok, Ev.accept sid t e r ok ∈ s.core.trace →
-      1 ≤ writeAttempts s.core.trace sid ∨ dropped s.core.trace sid = true :=
+      1 ≤ writeAttempts s.core.trace sid ∨ dropped s.core.trace sid = true ∨ reopenedSince s.core.trace sid = true :=
   C01_no_silent_loss_quiescent h hq
+
+/-- the statement as it was before /repo 3897b77, for histories without `close()` (the histories the Spec monitor
+    `noSilentLoss` judges) -/
+theorem C01_no_silent_loss_quiescent_no_close {s : Sys} (h : ReachableWF s) (hq : s.core.queue = [])
+    (hnc : hasClose s.core.trace = false) :
+    dropsJustified s.core.trace = true ∧
+    ∀ sid t e r ok, Ev.accept sid t e r ok ∈ s.core.trace →
+      1 ≤ writeAttempts s.core.trace sid ∨ dropped s.core.trace sid = true := by
+  obtain ⟨h1, h2⟩ := C01_no_silent_loss_quiescent h hq
+  refine ⟨h1, fun sid t e r ok hmem => ?_⟩
+  rcases h2 sid t e r ok hmem with h3 | h3 | h3
+  · exact .inl h3
+  · exact .inr h3
+  · rw [reopenedSince_of_noClose hnc sid] at h3; cases h3
 
 theorem healed_noDrainAwait {s : Sys} (h : Healed s) : noDrainAwait s := by
   obtain ⟨w, _, _, _, hall⟩ := h.conn
@@ -590,7 +871,7 @@ theorem healed_noDrainAwait {s : Sys} (h : Healed s) : noDrainAwait s := by
 theorem C01_no_silent_loss_healed {s : Sys} (h : ReachableWF s) (hh : Healed s) :
     dropsJustified s.core.trace = true ∧
     ∀ sid t e r ok, Ev.accept sid t e r ok ∈ s.core.trace →
-      1 ≤ writeAttempts s.core.trace sid ∨ dropped s.core.trace sid = true :=
+      1 ≤ writeAttempts s.core.trace sid ∨ dropped s.core.trace sid = true ∨ reopenedSince s.core.trace sid = true :=
   C01_no_silent_loss_quiescent h hh.queue
 
 /-! ### the monitor `noSilentLoss` on the model's trace with the harness marker `heal` inserted -/
@@ -629,24 +910,34 @@ theorem dropsJustified_insert_heal (pre post : List Ev) (th : Nat) (h : dropsJus
     marker `heal th` is inserted in it (the model itself never emits `heal`) -/
 theorem C01_noSilentLoss_quiescent {s : Sys} (h : ReachableWF s) (hq : s.core.queue = []) (pre post : List Ev)
     (th : Nat) (htr : s.core.trace = pre ++ post) : noSilentLoss (pre ++ Ev.heal th :: post) = true := by
-  obtain ⟨h1, h2⟩ := C01_no_silent_loss_quiescent h hq
-  rw [htr] at h1 h2
+  have h1 := C01_drops_justified h
+  rw [htr] at h1
   simp only [noSilentLoss, Bool.and_eq_true]
   refine ⟨dropsJustified_insert_heal _ _ _ h1, ?_⟩
   split
   · rfl
   · simp only [Bool.or_eq_true, List.all_eq_true]
-    right
-    intro ev hev
-    rcases mem_insert_heal hev with rfl | hev
-    · rfl
-    · cases ev with
-      | accept sid t e r ok =>
-        simp only [Bool.or_eq_true, decide_eq_true_eq, writeAttempts_insert_heal, dropped_insert_heal]
-        rcases h2 sid t e r ok hev with h3 | h3
-        · exact .inl (.inr h3)
-        · exact .inr h3
-      | _ => rfl
+    -- the monitor does not judge histories in which the client was closed
+    cases hc : hasClose (pre ++ Ev.heal th :: post) with
+    | true => exact .inl rfl
+    | false =>
+      right
+      have hnc : hasClose s.core.trace = false := by
+        rw [htr]
+        simp only [hasClose, List.any_append, List.any_cons, Bool.or_eq_false_iff] at hc ⊢
+        exact ⟨hc.1, hc.2.2⟩
+      obtain ⟨_, h2⟩ := C01_no_silent_loss_quiescent_no_close h hq hnc
+      rw [htr] at h2
+      intro ev hev
+      rcases mem_insert_heal hev with rfl | hev
+      · rfl
+      · cases ev with
+        | accept sid t e r ok =>
+          simp only [Bool.or_eq_true, decide_eq_true_eq, writeAttempts_insert_heal, dropped_insert_heal]
+          rcases h2 sid t e r ok hev with h3 | h3
+          · exact .inl (.inr h3)
+          · exact .inr h3
+        | _ => rfl
 
 /-- the model never emits the harness marker, so on its own trace the monitor reduces to `dropsJustified` -/
 theorem C01_noSilentLoss_unmarked {s : Sys} (h : ReachableWF s) : noSilentLoss s.core.trace = true := by
